@@ -289,7 +289,7 @@ ARENA = {
            'block-contents-changed', 'live-blocks-overlap', 'grow-lost-contents', 'shrink-lost-contents', 'panic'],
         search_x=True,
         mism=['result-block', 'stats'],
-        colls_x=['wrappers:'],
+        colls_x=['wrappers:', 'typed-vs-dyn shrink'],
         note='opt-out / non-last / same-address / in-place-grow theorems proved over the model (now also: a shrink through WithoutShrink or with SHRINKS off never lowers the allocated byte count, shrinking a block that is not the newest reclaims nothing), collections whose allocator is a WithoutShrink / WithoutDealloc wrapper are driven with std Vec in lock-step (wrappers probe of colls), and the monotonicity clause: no operation other than a reclaim of the newest block, a shrink, a scope exit or a reset lets allocated() go down (ArenaAlloc.growing_step_never_decreases_allocated; alloc_try_with Err restores the count exactly, see C03); the model is tied to the code by correspondence'),
 }
 
@@ -465,7 +465,28 @@ def check_arena(ctx):
     ctx.grep_forbidden()
     if ctx.tier == 'thorough' and ok:
         ctx.coqchk(target)
+    arith_dep_broken = None
+    if pid == 'C01' and ok:
+        # the arena model computes with the SPECIFICATION functions of the bump arithmetic and the size policy; that the
+        # current bumping.rs / size_config.rs compute them is C11's and C12's obligation - and a premise of "every block
+        # lies inside memory the arena owns": re-checked here, with their search for a concrete input if it breaks
+        for dep in ('Properties/C12', 'Properties/C11'):
+            rc_, out_, _ = sh('make -j16 %s.vo' % dep, cwd=COQ, timeout=1500)
+            if rc_ != 0:
+                arith_dep_broken = dep
+                ctx.problems.append(('proof', 'premise of C01 broken: make %s.vo failed (the current %s no longer computes the specification the arena model uses):\n%s'
+                                     % (dep, 'size_config.rs' if dep.endswith('C12') else 'bumping.rs', '\n'.join(out_.strip().split('\n')[-8:]))))
+                break
     if ctx.build_driver():
+        if arith_dep_broken:
+            summ, mism_ = run_arith(ctx, 400_000, [ctx.seed, ctx.seed + 7], binname='sizecfg' if arith_dep_broken.endswith('C12') else 'arith')
+            for mode, l in (mism_ or []):
+                pf = parse_propfail(l)
+                if pf:
+                    ctx.violations.append({'kind': 'sizecfg-input' if arith_dep_broken.endswith('C12') else 'arith-input', 'build': mode, 'input': pf['input'],
+                                           'what_fails': (pf.get('why') or 'the compiled function differs from its specification') + ' (a block allocated in such a chunk / range does not lie inside the memory the arena owns)',
+                                           'signature': 'arith-premise:%s' % (pf.get('why') or 'differs')})
+                    break
         runs, ops = (240, 60) if ctx.tier == 'quick' else (4000, 100)
         seeds = [ctx.seed] if ctx.tier == 'quick' else [ctx.seed, ctx.seed + 1000003]
         binname = 'arena_x' if pid in ARENA_X else 'arena'
